@@ -96,7 +96,7 @@ struct tmo {
 };
 struct tko {
 	struct iv_task *iv; int registered; struct cell *cell;
-	unsigned long last_run_poll; int ran_ever;
+	unsigned long last_run_poll; int ran_ever; int reruns_this_poll;
 };
 struct evo {
 	struct iv_event *iv; int registered; struct cell *cell; int valid;
@@ -211,6 +211,32 @@ static void (*const fd_fn[3][3])(void *) = { { NULL, fd_in1, fd_in2 }, { NULL, f
 static void timer_cb(void *), task_cb(void *), event_cb(void *), raw_cb(void *);
 
 /* ------------------------------------------------------------------ callback prologue */
+/* the iv_*_registered() queries as seen from inside a callback: they must agree with what was registered and unregistered so far
+ * for every object other than the one whose callback is starting (a due timer whose handler has not run yet is still registered:
+ * `if (iv_timer_registered(&t)) iv_timer_unregister(&t);` is how another handler cancels it) */
+static void check_registered_queries(int kind, int id)
+{
+	for (int j = 0; j < cfg_ntimer; j++) {
+		struct tmo *t = &tmos[j];
+		if ((kind == KIND_TIMER && j == id) || !t->iv || !t->valid) continue;
+		int r = !!iv_timer_registered(t->iv);
+		if (r != !!t->registered) { FAILP("C04", "registered-query", "iv_timer_registered(timer%d) = %d inside a %s callback, but the timer %s", j, r, kind_name[kind], t->registered ? "is registered and has not fired" : "is not registered");
+					    FAILP("C01", "registered-query", "iv_timer_registered(timer%d) = %d, but the timer %s", j, r, t->registered ? "is registered and has not fired" : "is not registered"); }
+	}
+	for (int j = 0; j < cfg_ntask; j++) {
+		struct tko *t = &tkos[j];
+		if ((kind == KIND_TASK && j == id) || !t->iv) continue;
+		int r = !!iv_task_registered(t->iv);
+		if (r != !!t->registered) FAILP("C06", "registered-query", "iv_task_registered(task%d) = %d inside a %s callback, but the task %s", j, r, kind_name[kind], t->registered ? "is registered and has not run" : "is not registered");
+	}
+	for (int j = 0; j < cfg_nfd; j++) {
+		struct fdo *f = &fdos[j];
+		if (!f->iv || !f->valid) continue;
+		int r = !!iv_fd_registered(f->iv);
+		if (r != !!f->registered) { FAILP("C03", "registered-query", "iv_fd_registered(fd%d) = %d, but the descriptor %s", j, r, f->registered ? "is registered" : "is not registered");
+					    FAILP("C02", "registered-query", "iv_fd_registered(fd%d) = %d, but the descriptor %s", j, r, f->registered ? "is registered" : "is not registered"); }
+	}
+}
 static void cb_enter(struct cell *c, int kind)
 {
 	if (!in_main) FAILP("C07", "callback-outside-main", "%s callback outside iv_main", kind_name[kind]);
@@ -221,6 +247,7 @@ static void cb_enter(struct cell *c, int kind)
 	if (callbacks_this_iter == 3) vz_label(L_MULTI_DUE);
 	if (c->kind != kind) fail_any("cookie-kind-mismatch", "callback kind %s got cookie of kind %s", kind_name[kind], kind_name[c->kind]);
 	cur_kind = kind; cur_id = c->id;
+	check_registered_queries(kind, c->id);
 	budget--;
 	if (cfg_cb_cost) vk_advance(cfg_cb_cost);
 }
@@ -511,8 +538,12 @@ static void task_cb(void *cookie)
 		fail_any("task-callback-not-registered", "task%d handler ran although not registered", c->id);
 	}
 	if (iv_task_registered(t->iv)) { FAILP("C06", "registered-on-entry", "task%d still registered on handler entry", c->id); FAILP("C01", "task-registered-on-entry", "task%d still registered on entry", c->id); }
-	if (t->ran_ever && t->last_run_poll == poll_calls)
+	if (t->ran_ever && t->last_run_poll == poll_calls) {
 		FAILP("C06", "rerun-same-round", "task%d ran twice without a kernel poll in between (after wait call #%lu)", c->id, poll_calls);
+		/* a task that keeps re-registering itself is run again and again without the loop ever getting back to the kernel: that is
+		 * a loop spinning in its task phase (iv_quit, descriptors and timers are never looked at) */
+		if (++t->reruns_this_poll >= 3) FAILP("C07", "task-phase-spin", "task%d ran %d times in a row without the loop polling the kernel in between: a self re-registering task keeps iv_main inside its task phase", c->id, t->reruns_this_poll + 1);
+	} else t->reruns_this_poll = 0;
 	t->ran_ever = 1; t->last_run_poll = poll_calls;
 	t->registered = 0; c->live = 0; summary_cnt[KIND_TASK][c->id][0]++;
 	if (!cfg_alloc_reuse && ch_n(2)) { vz_label(L_FREE_IN_HANDLER); memset(t->iv, 0x5A, sizeof *t->iv); free(t->iv); t->iv = NULL; }
@@ -950,6 +981,9 @@ static int hook_wait_block(struct vk_wait *w)
 			FAILP("C04", "oversleep", "loop blocks until %s but timer%d expires at now%+lld ns (%s timeout=%lld ns, timerfd %s)",
 			      w->deadline == VK_INF ? "forever" : "later", which, (long long)(e - vk_now()), vk_prim_name[w->prim], (long long)w->timeout_ns, w->tfd_armed ? "armed" : "off");
 			FAILP("C07", "oversleep", "loop blocks past the expiry of timer%d", which);
+			/* with the kernel timer armed for another timer's expiry, that other timer decides when this one fires */
+			if (w->tfd_armed && w->tfd_deadline != VK_INF && w->tfd_deadline > e)
+				FAILP("C05", "fires-with-other-timer", "timer%d (expires at now%+lld ns) will not fire before the kernel timer that is armed for a later timer's expiry (now%+lld ns): a timer registered earlier decides when this one runs", which, (long long)(e - vk_now()), (long long)(w->tfd_deadline - vk_now()));
 		}
 	}
 	/* --- environment decision --- */
